@@ -429,4 +429,161 @@ theorem createAnswer_err_general (pc : Pc) (e : Err) (h : (createAnswer pc).2 = 
           · simp at h
 
 
+/-! ### a first offer synchronises the transceivers with its sections -/
+
+theorem mem_modifyAt (f : Trx → Trx) (ts : List Trx) (i : Nat) (x : Trx) (h : x ∈ modifyAt f ts i) :
+    x ∈ ts ∨ ∃ t, ts[i]? = some t ∧ x = f t := by
+  induction ts generalizing i with
+  | nil => simp [modifyAt] at h
+  | cons t rest ih =>
+    cases i with
+    | zero =>
+      simp only [modifyAt, List.mem_cons] at h
+      rcases h with h | h
+      · right; exact ⟨t, by simp, h⟩
+      · left; simp [h]
+    | succ j =>
+      simp only [modifyAt, List.mem_cons] at h
+      rcases h with h | h
+      · left; simp [h]
+      · rcases ih j h with h' | ⟨t', ht', hx⟩
+        · left; simp [h']
+        · right; exact ⟨t', by simpa using ht', hx⟩
+
+theorem findIdxFrom_spec (p : Nat → Trx → Bool) (ts : List Trx) (i j : Nat)
+    (h : findIdxFrom p ts i = some j) : ∃ t, ts[j - i]? = some t ∧ p j t = true ∧ i ≤ j := by
+  induction ts generalizing i with
+  | nil => simp [findIdxFrom] at h
+  | cons t rest ih =>
+    unfold findIdxFrom at h
+    split at h
+    · rename_i hp
+      simp only [Option.some.injEq] at h; subst h
+      exact ⟨t, by simp, hp, Nat.le_refl _⟩
+    · obtain ⟨t', ht', hp', hle⟩ := ih _ h
+      refine ⟨t', ?_, hp', by omega⟩
+      have : j - i = (j - (i + 1)) + 1 := by omega
+      rw [this]; simpa using ht'
+
+theorem findIdx_spec (p : Nat → Trx → Bool) (ts : List Trx) (j : Nat) (h : findIdx p ts = some j) :
+    ∃ t, ts[j]? = some t ∧ p j t = true := by
+  obtain ⟨t, ht, hp, _⟩ := findIdxFrom_spec p ts 0 j h
+  exact ⟨t, by simpa using ht, hp⟩
+
+/-- every transceiver that carries a mid got it from one of the sections `P`, together with that
+section's kind and direction -/
+def SyncInv (P : List Section) (ts : List Trx) : Prop :=
+  ∀ t ∈ ts, ∀ m, t.mid = some m → ∃ s ∈ P, s.mid = m ∧ t.kind = s.kind ∧ t.dir = s.dir
+
+theorem SyncInv.mono {P Q : List Section} {ts : List Trx} (h : SyncInv P ts) (hpq : ∀ s ∈ P, s ∈ Q) : SyncInv Q ts := by
+  intro t ht m hm
+  obtain ⟨s, hs, h1⟩ := h t ht m hm
+  exact ⟨s, hpq s hs, h1⟩
+
+@[simp] theorem applyParamsDir_mid (s : Section) (t : Trx) : (applyParamsDir s t).mid = t.mid := rfl
+@[simp] theorem applyParamsDir_kind (s : Section) (t : Trx) : (applyParamsDir s t).kind = t.kind := rfl
+@[simp] theorem applyParamsDir_dir (s : Section) (t : Trx) : (applyParamsDir s t).dir = s.dir := rfl
+
+/-- one offered section with a non-empty mid keeps the invariant and adds itself -/
+theorem remoteOfferSection_sync (P : List Section) (ts : List Trx) (used : List Nat) (s : Section)
+    (hinv : SyncInv P ts) (hne : s.mid ≠ []) :
+    SyncInv (P ++ [s]) (remoteOfferSection (ts, used) s).1 := by
+  have hmono : SyncInv (P ++ [s]) ts := hinv.mono (fun x hx => by simp [hx])
+  have hemp : s.mid.isEmpty = false := by cases h : s.mid <;> simp_all
+  unfold remoteOfferSection
+  simp only [hemp, Bool.false_eq_true, if_false]
+  split
+  · -- matched by kind + mid
+    rename_i i hi
+    obtain ⟨t0, hget, hp⟩ := findIdx_spec _ _ _ hi
+    simp only [Bool.and_eq_true, decide_eq_true_eq] at hp
+    intro x hx m hm
+    rcases mem_modifyAt _ _ _ _ hx with h | ⟨t, ht, rfl⟩
+    · exact hmono x h m hm
+    · rw [hget] at ht; injection ht with e; subst e
+      refine ⟨s, by simp, ?_, ?_, rfl⟩
+      · simp only [applyParamsDir_mid] at hm; rw [hp.2] at hm; injection hm
+      · simp only [applyParamsDir_kind]; exact hp.1.2
+  · split
+    · -- a mid-less transceiver of the kind takes the mid
+      rename_i i hi
+      obtain ⟨t0, hget, hp⟩ := findIdx_spec _ _ _ hi
+      simp only [Bool.and_eq_true, decide_eq_true_eq] at hp
+      intro x hx m hm
+      rcases mem_modifyAt _ _ _ _ hx with h | ⟨t, ht, rfl⟩
+      · exact hmono x h m hm
+      · rw [hget] at ht; injection ht with e; subst e
+        refine ⟨s, by simp, ?_, ?_, rfl⟩
+        · simp only [applyParamsDir_mid] at hm; injection hm
+        · simp only [applyParamsDir_kind]; exact hp.2
+    · -- a new transceiver
+      intro x hx m hm
+      simp only [List.mem_append, List.mem_singleton] at hx
+      rcases hx with h | h
+      · exact hmono x h m hm
+      · subst h
+        simp only [Option.some.injEq] at hm
+        exact ⟨s, by simp, hm, rfl, rfl⟩
+
+theorem foldl_remoteOfferSection_sync (secs : List Section) (P : List Section) (ts : List Trx) (used : List Nat)
+    (hinv : SyncInv P ts) (hne : ∀ s ∈ secs, s.mid ≠ []) :
+    SyncInv (P ++ secs) (secs.foldl remoteOfferSection (ts, used)).1 := by
+  induction secs generalizing P ts used with
+  | nil => simpa using hinv
+  | cons s rest ih =>
+    simp only [List.foldl_cons]
+    have h1 := remoteOfferSection_sync P ts used s hinv (hne s (by simp))
+    have := ih (P ++ [s]) (remoteOfferSection (ts, used) s).1 (remoteOfferSection (ts, used) s).2 h1
+      (fun x hx => hne x (by simp [hx]))
+    simpa [List.append_assoc] using this
+
+/-- pairwise distinct mids -/
+def DistinctMids : List Section → Prop
+  | [] => True
+  | s :: rest => (∀ r ∈ rest, r.mid ≠ s.mid) ∧ DistinctMids rest
+
+theorem distinct_inj (secs : List Section) (h : DistinctMids secs) (a b : Section) (ha : a ∈ secs) (hb : b ∈ secs)
+    (hm : a.mid = b.mid) : a = b := by
+  induction secs with
+  | nil => cases ha
+  | cons s rest ih =>
+    obtain ⟨h1, h2⟩ := h
+    rcases List.mem_cons.mp ha with ha1 | ha2 <;> rcases List.mem_cons.mp hb with hb1 | hb2
+    · rw [ha1, hb1]
+    · subst ha1; exact absurd hm.symm (h1 b hb2)
+    · subst hb1; exact absurd hm (h1 a ha2)
+    · exact ih h2 ha2 hb2
+
+
+theorem applyRemote_trxs_congr (a b : Pc) (d : Desc) (h : a.trxs = b.trxs) :
+    (applyRemote a d).trxs = (applyRemote b d).trxs := by
+  unfold applyRemote
+  cases d.ty <;> simp [h]
+
+/-- the transceivers after a successful FIRST `set_remote_description` (no remote description yet) are
+those `applyRemote` computes from the current transceivers -/
+theorem setRemote_first_trxs (pc : Pc) (d : Desc) (hrem : pc.rem = none) (h : (setRemote pc d).2 = .ok) :
+    (setRemote pc d).1.trxs = (applyRemote pc d).trxs := by
+  unfold setRemote at h ⊢
+  cases hv : validateType d.ty with
+  | some e' => simp [hv] at h
+  | none =>
+    simp only [hv] at h ⊢
+    cases hf : remoteFingerprint pc.mode d.fp with
+    | error e' => simp [hf] at h
+    | ok fp =>
+      simp only [hf] at h ⊢
+      by_cases hc : fpChanged pc fp = true
+      · simp [hc] at h
+      · have hr : reinvitePhase pc d (mediaChanged pc d) = (pc, none) := by simp [reinvitePhase, hrem]
+        simp only [hc, hr] at h ⊢
+        cases ht : remoteTransition pc.sig d.ty with
+        | error e' => simp [ht] at h
+        | ok s2 =>
+          simp only [ht, hrem, Option.isSome_none, Bool.false_and, Bool.false_eq_true, if_false] at h ⊢
+          have hc2 : (pc.dtlsStarted && pc.remoteFp != fp) = false := by simpa [fpChanged] using hc
+          simp only [fpChanged, hc2, Bool.false_eq_true, if_false] at h ⊢
+          rw [remoteTail_ok _ _ h]
+          exact applyRemote_trxs_congr _ _ _ rfl
+
 end RtcModel.Jsep
